@@ -171,11 +171,12 @@ class Session:
     def add(self, text, check, label, deps):
         self.stmts.append(text); self.checks.append((check, label, frozenset(deps)))
 
-    def define_literal(self, name, seq):
+    def define_literal(self, name, seq, model_set):
+        """model_set: the set the written sequence denotes according to the TLA+ model (FromWritten)"""
         deps = set()
         text = f"{name} := {{" + ", ".join(self.lit(i, deps) for i in seq) + "}"
         self.vardeps[name] = deps
-        want = [kind_value(self.k, i) for i in set(seq)]
+        want = [kind_value(self.k, i) for i in model_set]
         self.add(text, ("set", want, self.k.el), "literal", deps)
 
     def flagged(self, deps):
@@ -246,8 +247,8 @@ def build_session(cs, kname, n):
     k = KINDS[kname]
     s = Session(k, cs)
     a, b = cs["a"], cs["b"]
-    s.define_literal("A", a)
-    A = set(a)
+    s.define_literal("A", a, cs["A"])
+    A = cs["A"]
     if cs["fam"] == "one":
         s.add("set/size(A)", ("size", cs["sizeA"]), "set/size", s.vardeps["A"])
         for e in range(1, min(cs["u"], k.n) + 1):
@@ -273,7 +274,7 @@ def build_session(cs, kname, n):
                 s.add("mf := [" + " ".join(cells) + "]", ("setup",), "matrix", set())
                 s.add(f"F<{{{k.el}}}> := mf", ("set", want, k.el), "matrix-conversion-f64", set())
     else:
-        s.define_literal("B", b)
+        s.define_literal("B", b, cs["B"])
         deps = s.vardeps["A"] | s.vardeps["B"]
         for j, op in enumerate(SETOPS + RELOPS):
             word = (n + j) % 2 == 1
@@ -287,6 +288,10 @@ def build_session(cs, kname, n):
                 chk = ("bool", cs[op])
             if word and op in WORD_FREE: chk = ("free",) + chk
             s.add(text, chk, label, deps)
+        # operators applied to results of operators (the laws TLC checked on the model, replayed on the code)
+        s.add("(A ∖ B) ∪ (A ∩ B)", ("set", [kind_value(k, i) for i in cs["A"]], k.el), "law:(A∖B)∪(A∩B)=A", deps)
+        s.add("(A ∪ B) ∖ (A ∩ B)", ("set", [kind_value(k, i) for i in cs["sym"]], k.el), "law:(A∪B)∖(A∩B)=AΔB", deps)
+        s.add("set/size(A Δ B)", ("size", len(cs["sym"])), "set/size", deps)
     for sh in cs["comps"]:
         if not comp_applicable(k, sh): continue
         text, deps = render_comp(s, sh, {"A": "A", "B": "B"})
@@ -352,9 +357,10 @@ def run(rep, tier, seed):
     for n, cs in enumerate(cases):
         app = applicable_kinds(cs, kinds)
         longest = max(len(cs["a"]), len(cs["b"]))
-        if cs["fam"] == "one": per = len(app) if longest <= (3 if quick else 4) else 4
+        if cs["fam"] == "one": per = len(app) if longest <= (3 if quick else 4) else (4 if quick else 2)
         elif cs["fam"] == "big": per = len(app)
-        else: per = 2 if (quick or longest >= 4) else 7
+        elif quick: per = 2 if longest <= 2 else 1
+        else: per = 1 if longest >= 4 else 5
         if per >= len(app): ks = app
         else:
             rot = [kn for kn in app if kn != "bool"]
@@ -382,6 +388,7 @@ def run(rep, tier, seed):
                     "traces_validated_against_impl": nsess, "cases_emitted": len(cases), "cases_by_family": dict(fam),
                     "cases_replayed": nsess, "statements_checked": tally["statements"], "exact_matched": tally["exact"],
                     "free_outcomes": tally["free"], "arms_hit": len(arms), "element_kinds": kinds, "exhaustive": True,
+                    "sampled_cases": fam.get("big", 0),
                     "rule": "every written sequence (family one) and every pair of written sequences (family two) over 4 element ids "
                             "up to the configured lengths, every operator/relation in symbol or word form, membership of every "
                             "universe element, construction by literal / matrix conversion / comprehension (1-2 generators, 0-2 "
